@@ -30,10 +30,20 @@ TIE = 1e-10
 
 def scenarios(tier):
     k = 1 if tier == "quick" else 10
-    return [("nndvi", 2000 * k)]
+    # big_sampling: thousands of re-assignments of a few hundred pooled points (sampling_times x |D| beyond 2**21): whatever is
+    # chunked, capped or vectorised in blocks in the threshold computation only shows there
+    return [("nndvi", 2000 * k), ("big_sampling", 3 if tier == "quick" else 10)]
+
+
+HEAVY = ["big_sampling"]
 
 
 def gen(rng, scenario, tier):
+    if scenario == "big_sampling":
+        n = rng.randint(108, 130)
+        cfg = {"k_nn": rng.randint(3, 5), "sampling_times": (2**21) // (2 * n) + rng.randint(40, 900), "alpha": rng.choice([0.01, 0.05])}
+        bs, drifts = workload.batches(rng, 3, 2, n, n, equal=True, drift_rate=0.6, nd=3)
+        return {"cfg": cfg, "events": [[b, np_seed(rng)] for b in bs], "drift_positions": drifts}
     d = rng.randint(1, 3)
     cfg = {"k_nn": rng.choice([1, 2, 3, 4, 5, 8, 12]), "sampling_times": rng.randint(8, 30), "alpha": rng.choice([0.01, 0.1, 0.3, 0.6, 0.8])}
     bs, drifts = workload.batches(rng, rng.randint(4, 10), d, rng.choice([3, 6, 6]), 34, equal=rng.random() < 0.4, drift_rate=rng.choice([0.3, 0.5]),
